@@ -18,6 +18,7 @@ import os
 import random
 import re
 import threading
+from concurrent.futures import ThreadPoolExecutor
 
 import vlib
 
@@ -53,7 +54,7 @@ THOROUGH = [
     ("X4", "FamP(4) \\cup FamC(4) \\cup FamD(4) \\cup FamE(4) \\cup FamM(4)"),
     ("L5", 'FamL(5, {"ttf"}, {2}) \\cup FamL(5, {"cff"}, {4})'),
     ("M5", "FamM(5)"),
-    ("X5", "FamP(5) \\cup FamC(5) \\cup FamD(5) \\cup FamE(5)"),
+    ("X5", "FamP(5) \\cup FamD(5) \\cup FamE(5)"),
 ]
 
 CLAUSE_TEXT = {
@@ -184,11 +185,14 @@ def _judge(ctx, trace, label, ncases):
     return res, failed
 
 
-def _account(ctx, res, ncases):
+def _account(ctx, res, ncases, label="SubsetTrace (trace validation)", traces=True):
+    """Evidence counters of one TLC run (all TLC runs of this check use count=False and are
+    accounted here, under the caller's lock, because several run concurrently)."""
     ctx.cov["states"] += res.distinct
     ctx.cov["transitions"] += res.generated
-    ctx.cov["traces_validated_against_impl"] += ncases
-    ctx.cov["tlc_runs"].append({"label": "SubsetTrace (trace validation)", "cmd": res.cmd, "generated": res.generated,
+    if traces:
+        ctx.cov["traces_validated_against_impl"] += ncases
+    ctx.cov["tlc_runs"].append({"label": label, "cmd": res.cmd, "generated": res.generated,
                                 "distinct": res.distinct, "diameter": res.diameter, "wall_s": round(res.wall, 2),
                                 "cases": ncases, "violated": res.violated})
 
@@ -198,61 +202,79 @@ def _run_cases(ctx, binp, cases, label, state):
     cases.sort(key=lambda c: (json.dumps(c["f"], sort_keys=True), c["list"]))
     d = ctx.subdir("run")
     chunk = 6000
-    chunks = []
-    for k in range(0, len(cases), chunk):
-        part = cases[k:k + chunk]
-        for c in part:
-            c["id"] = state["next_id"]
-            state["next_id"] += 1
+    with state["lock"]:
+        first = state["next_id"]
+        state["next_id"] += len(cases)
+    for i, c in enumerate(cases):
+        c["id"] = first + i
+    parts = [cases[k:k + chunk] for k in range(0, len(cases), chunk)]
+
+    def work(k):
+        part = parts[k]
         cp = os.path.join(d, "cases%d.ndjson" % k)
         tp = os.path.join(d, "trace%d.ndjson" % k)
         vlib.write_ndjson(cp, part)
-        _, out = ctx.run([binp, "run", cp, tp], timeout=900)
+        _, out = ctx.run([binp, "run", cp, tp], timeout=1500)
         info = json.loads(out.strip().splitlines()[-1])
-        ctx.cov["evaluations"] += info["events"]
-        chunks.append((part, tp))
-    # judge the chunks with a few TLC processes in parallel (each -workers 1)
-    lock = threading.Lock()
-    orig_subdir = ctx.subdir
-
-    def locked_subdir(name=None):
-        with lock:
-            return orig_subdir(name)
-    ctx.subdir = locked_subdir
-    results = [None] * len(chunks)
-    errors = []
-
-    def work(i):
-        try:
-            results[i] = _judge(ctx, chunks[i][1], "%s chunk %d" % (label, i), len(chunks[i][0]))
-        except Exception as ex:   # re-raised in the main thread
-            errors.append(ex)
-    par = 4
-    for k in range(0, len(chunks), par):
-        ths = [threading.Thread(target=work, args=(i,)) for i in range(k, min(k + par, len(chunks)))]
-        for t in ths:
-            t.start()
-        for t in ths:
-            t.join()
-    ctx.subdir = orig_subdir
-    if errors:
-        raise errors[0]
-    nfail = 0
-    for (part, tp), (res, failed) in zip(chunks, results):
-        _account(ctx, res, len(part))
-        byid = {c["id"]: c for c in part}
-        for cid, fs in failed.items():
-            nfail += 1
-            c = byid[cid]
-            for (ev, clause) in fs:
-                key = (ev, clause)
-                size = (c["f"]["n"], len(fs), len(c["list"]), cid)
-                if key not in state["witness"] or size < state["witness"][key][0]:
-                    state["witness"][key] = (size, c)
-                state["count"][key] = state["count"].get(key, 0) + 1
+        res, failed = _judge(ctx, tp, "%s chunk %d" % (label, k), len(part))
         os.remove(tp)
+        os.remove(cp)
+        return info, res, failed
+    # a few chunks at a time: each is one harness process and one TLC process (-workers 1)
+    with ThreadPoolExecutor(max_workers=state["par"]) as ex:
+        results = list(ex.map(work, range(len(parts))))
+    nfail = 0
+    with state["lock"]:
+        for part, (info, res, failed) in zip(parts, results):
+            ctx.cov["evaluations"] += info["events"]
+            _account(ctx, res, len(part))
+            byid = {c["id"]: c for c in part}
+            for cid, fs in failed.items():
+                nfail += 1
+                c = byid[cid]
+                for (ev, clause) in fs:
+                    key = (ev, clause)
+                    size = (c["f"]["n"], len(fs), len(c["list"]), cid)
+                    if key not in state["witness"] or size < state["witness"][key][0]:
+                        state["witness"][key] = (size, {"f": c["f"], "list": c["list"]})
+                    state["count"][key] = state["count"].get(key, 0) + 1
+        state["total"] += len(cases)
     ctx.log("%s: %d cases judged, %d with violated clauses" % (label, len(cases), nfail))
     return nfail
+
+
+def _family(ctx, binp, name, expr, state):
+    """Model-check one family, replay its cases."""
+    mod, files = _mc_files(name, expr)
+    res = ctx.tlc(mod, cfg=mod + ".cfg", files=files, timeout=2400, workers=state["tlc_workers"],
+                  label="SubsetGen exhaustive, fonts = %s" % expr, count=False)
+    if not res.ok:
+        raise vlib.Infra("SubsetGen.tla violates %s on family %s -- the spec is wrong, not the code:\n%s\n%s" % (
+            res.violated, expr, res.error_text[:1500], "\n".join(res.counterexample[:60])))
+    if not res.cases:
+        raise vlib.Infra("family %s produced no case" % expr)
+    keys = set(json.dumps(c, sort_keys=True) for c in res.cases)
+    if len(keys) != len(res.cases):
+        raise vlib.Infra("family %s: duplicate CASE lines" % expr)
+    with state["lock"]:
+        _account(ctx, res, len(res.cases), label="SubsetGen exhaustive, fonts = %s" % expr, traces=False)
+        ctx.sample({"family": expr, "case": res.cases[len(res.cases) // 2]}, limit=4)
+        state["nontrivial"] += sum(1 for c in res.cases if c["list"] != list(range(c["f"]["n"])))
+    _run_cases(ctx, binp, res.cases, "family " + name, state)
+
+
+def _random(ctx, binp, state):
+    """V: seeded random larger fonts."""
+    nf, nl = ctx.pick((60, 5), (1500, 8))
+    rnd = _random_cases(ctx.seed, nf, nl)
+    uniq = {}
+    for c in rnd:
+        uniq[json.dumps(c, sort_keys=True)] = c
+    rnd = list(uniq.values())
+    with state["lock"]:
+        ctx.sample({"random_case": rnd[0]}, limit=5)
+        state["nontrivial"] += len(rnd)
+    _run_cases(ctx, binp, rnd, "random fonts", state)
 
 
 def _replay_cases(ctx, wanted, tries=6):
@@ -278,6 +300,7 @@ def _replay_cases(ctx, wanted, tries=6):
                 ctx.run([binp, "one", cp, tp])
                 fo.write(open(tp).read())
         res, failed = _judge(ctx, allp, "replay of %d isolated cases" % len(todo), len(todo))
+        _account(ctx, res, 0, label="SubsetTrace (replay of isolated cases)")
         evs = vlib.read_ndjson(allp)
         for i in todo:
             got = failed.get(i, set())
@@ -318,41 +341,31 @@ def run(ctx):
     ]
     fams = ctx.pick(QUICK, THOROUGH)
     binp = ctx.build("c10")
-    state = {"next_id": 0, "witness": {}, "count": {}}
-    total_cases = 0
-    nontrivial = 0
-    for name, expr in fams:
-        mod, files = _mc_files(name, expr)
-        res = ctx.tlc(mod, cfg=mod + ".cfg", files=files, timeout=1500,
-                      label="SubsetGen exhaustive, fonts = %s" % expr)
-        if not res.ok:
-            raise vlib.Infra("SubsetGen.tla violates %s on family %s -- the spec is wrong, not the code:\n%s\n%s" % (
-                res.violated, expr, res.error_text[:1500], "\n".join(res.counterexample[:60])))
-        if not res.cases:
-            raise vlib.Infra("family %s produced no case" % expr)
-        keys = set(json.dumps(c, sort_keys=True) for c in res.cases)
-        if len(keys) != len(res.cases):
-            raise vlib.Infra("family %s: duplicate CASE lines" % expr)
-        ctx.sample({"family": expr, "case": res.cases[len(res.cases) // 2]}, limit=4)
-        total_cases += len(res.cases)
-        nontrivial += sum(1 for c in res.cases if c["list"] != list(range(c["f"]["n"])))
-        _run_cases(ctx, binp, res.cases, "family " + name, state)
+    # several TLC / harness processes run concurrently: serialise scratch-directory creation
+    # and the evidence counters (local work-around, lib/vlib.py is not thread-safe)
+    lock = threading.RLock()
+    orig_subdir = ctx.subdir
+
+    def locked_subdir(name=None):
+        with lock:
+            return orig_subdir(name)
+    ctx.subdir = locked_subdir
+    state = {"next_id": 0, "witness": {}, "count": {}, "lock": lock, "total": 0, "nontrivial": 0,
+             "par": 4, "tlc_workers": max(2, ctx.workers // 2)}
+    jobs = [(lambda n=name, e=expr: _family(ctx, binp, n, e, state)) for name, expr in fams]
+    jobs.insert(1, lambda: _random(ctx, binp, state))
+    try:
+        with ThreadPoolExecutor(max_workers=2) as ex:     # two families at a time
+            futs = [ex.submit(j) for j in jobs]
+            for f in futs:
+                f.result()
+    finally:
+        ctx.subdir = orig_subdir
+    total_cases = state["total"]
     ctx.cov["exhaustive"] = True
     ctx.cov["bounds"] = {"families": {n: e for n, e in fams}, "glyph_lists": "all duplicate-free lists starting with 0",
                          "random_fonts": "5..12 glyphs"}
-
-    # V: seeded random larger fonts
-    nf, nl = ctx.pick((60, 5), (1500, 8))
-    rnd = _random_cases(ctx.seed, nf, nl)
-    uniq = {}
-    for c in rnd:
-        uniq[json.dumps(c, sort_keys=True)] = c
-    rnd = list(uniq.values())
-    ctx.sample({"random_case": rnd[0]}, limit=5)
-    _run_cases(ctx, binp, rnd, "random fonts", state)
-    total_cases += len(rnd)
-    nontrivial += len(rnd)
-    ctx.cov["distinct_nontrivial"] = nontrivial
+    ctx.cov["distinct_nontrivial"] = state["nontrivial"]
     ctx.cov["rule"] = ("distinct (font, glyph list) cases replayed into the real code and judged by TLC, not counting "
                        "the identity list 0..n-1; evaluations = recorded events (subset / outlines subset / reread / "
                        "builder self-check) judged by SubsetTrace.tla; %d cases in total" % total_cases)
